@@ -479,7 +479,10 @@ def graph_spec(jobs, builder):
                         add(a, b, "DISJUNCTIVE")
         for ops in by_job:
             for a, b in zip(ops, ops[1:]):
-                add(a, b, "CONJUNCTIVE")
+                # consecutive operations of a job that share a machine: a DiGraph holds one edge a->b; it must
+                # be the conjunctive one (the precedence cannot be expressed otherwise, the disjunctive relation
+                # is still carried by b->a)
+                edges[(a, b)] = {"CONJUNCTIVE"}
         src = len(nodes)
         nodes.append(("SOURCE",))
         snk = len(nodes)
